@@ -707,6 +707,14 @@ class Interp:
                 if q is None:
                     raise Unmodelled(f"inexact symbolic division {l.p!r} // {r.p!r}")
                 return VInt(q)
+            if isinstance(op, ast.Mod):
+                a, b = self.facts.norm(l.p).const_value(), self.facts.norm(r.p).const_value()
+                if a is not None and b is not None and b != 0:
+                    return VInt(P.const(int(a) % int(b)))
+                nm = self.fresh_atom(f"({self.facts.norm(l.p)!r} mod {self.facts.norm(r.p)!r})")
+                self.facts.lb[nm] = 0
+                _install_ge(self.facts, r.p - 1 - P.atom(nm), 0)
+                return VInt(P.atom(nm))
             if isinstance(op, ast.Pow):
                 c = r.p.const_value()
                 if c is not None and c >= 0:
@@ -993,7 +1001,15 @@ class Interp:
                     entries.append(ClassEntry(label, k, [self.ev(e.elt, fr2)], [], self.facts))
                 self.facts = base
                 self.sp.facts = base
-                return VSymList([Segment("loop", n, entries, iv)])
+                seg = Segment("loop", n, entries, iv)
+                env_snapshot = dict(fr.env)
+
+                def regen(p, g=g, e=e, getter=getter, env_snapshot=env_snapshot, f=fr.f):
+                    fr3 = Frame(f, dict(env_snapshot))
+                    self.assign(g.target, getter(self.facts.norm(P.of(p))), fr3)
+                    return self.ev(e.elt, fr3)
+                seg.regen = regen
+                return VSymList([seg])
             it = self.ev(g.iter, fr)
         out = []
         for x in self.iter_concrete(it):
